@@ -114,7 +114,23 @@ namespace mpf = boost::multiprecision;
 namespace soplex_verif
 {
 struct Probe;
+/* verification hook H1: events of the solve driver in solvereal.hpp (frame entry/exit, simplex call, re-solve sites);
+ * off unless a harness installs a callback for the calling thread */
+typedef void (*SolveHook)(const char* event, int depth, int a, int b, int c, int d);
+inline SolveHook& solveHook()
+{
+   static thread_local SolveHook hook = nullptr;
+   return hook;
 }
+inline int& solveDepth()
+{
+   static thread_local int depth = 0;
+   return depth;
+}
+}
+#define SOPLEX_VERIF_EVENT(name, a, b, c, d) do { if(::soplex_verif::solveHook()) ::soplex_verif::solveHook()(name, ::soplex_verif::solveDepth(), (int)(a), (int)(b), (int)(c), (int)(d)); } while(false)
+#else
+#define SOPLEX_VERIF_EVENT(name, a, b, c, d)
 #endif
 
 namespace soplex
